@@ -237,4 +237,5 @@ let handle (line : string) : string =
      | _ -> failwith "tmof")
   | "rootelem" -> string_of_runes (array_root_elem_name (runes_of_string rest))
   | "lower" -> string_of_runes (lower_name (runes_of_string rest))
+  | "cap" -> string_of_runes (capitalize_name (runes_of_string rest))
   | _ -> "unknown-case " ^ line
